@@ -51,6 +51,8 @@ def configs(thorough: bool) -> list:
         ("seqs", dict(fams=q(["bar", "doughnut", "radar", "xy", "bubble"]), nsers="0,2,3", catsel="4,7", xysel="1,4,5", L=2, fmt="ends",
                       reopen="end", rmod=3, corpussel=0)),
         ("corpus", dict(fams='"corpus"', nsers="0,1,5", catsel="2,5,7", xysel="1,3,5", L=1, fmt="none", reopen="end", rmod=2, corpussel=3)),
+        # more than ten series (c:idx / c:order cross a decimal-digit boundary): grow to 12, shrink from 12, 12 -> 11
+        ("wide", dict(fams=q(["bar", "line", "xy"]), nsers="1,11,12", catsel="1", xysel="7,9", L=1, fmt="none", reopen="end", rmod=1, corpussel=0)),
         # one chart-data object rendered when half built, then completed (ReplaceData with the completed object)
         ("staged", dict(fams=q(["bar", "line", "pie", "xy", "bubble"]), nsers="1,3", catsel="3,4,5,9", xysel="4,5", L=1, fmt="none", reopen="none",
                         rmod=1, corpussel=0, hows='"staged"')),
